@@ -742,6 +742,9 @@ func (s *SourceControl) SendAllStatus(dummy *string, reply *bool) error {
 
 // StoreRawDataBlock causes a block of raw data to be stored in a temporary file.
 func (s *SourceControl) StoreRawDataBlock(N int, reply *string) error {
+	if N < 0 {
+		return fmt.Errorf("cannot store a raw data block of %d samples", N)
+	}
 	file, err := os.CreateTemp("", "dastard_rawdata_*_inprogress.npz")
 	if err != nil {
 		return err
